@@ -202,9 +202,24 @@ func (s *sandbox) run(c map[string]interface{}) []Event {
 		// holds the stuck goroutines, is replaced)
 		for _, e := range evs {
 			if h, ok := e["hang"].(bool); ok && h {
+				// confirmed like any other hang: once more in a fresh child, alone, with every deadline doubled
 				s.kill()
-				s.countBad()
-				break
+				os.Setenv("VERIF_DEADLINE_SCALE", "2")
+				evs2, outc2 := s.once(c, 2*dl)
+				os.Unsetenv("VERIF_DEADLINE_SCALE")
+				s.kill()
+				if outc2 != "" {
+					s.countBad()
+					return []Event{{"ev": "outcome", "out": outc2}}
+				}
+				for _, e2 := range evs2 {
+					if h2, ok := e2["hang"].(bool); ok && h2 {
+						s.countBad()
+						return evs2
+					}
+				}
+				fmt.Fprintf(os.Stderr, "sandbox: stalled run not reproduced, using second run\n")
+				return evs2
 			}
 		}
 		return evs
